@@ -288,6 +288,53 @@ func (ex *Exec) modelled(st *State, ref string, fn *types.Func, recv *Val, args 
 			q := fmt.Sprintf("q_sc_%d", ex.eng.qn)
 			return one(b("(exists ((" + q + " Int)) (and (<= 0 " + q + ") (< " + q + " " + s.kid("len").S + ") (= (select " + s.kid("elems").S + " " + q + ") " + v.S + ")))"))
 		}
+	case "sync.(*Map).Load", "sync.(*Map).Store", "sync.(*Map).LoadOrStore", "sync.(*Map).Delete":
+		l := ex.derefLoc(st, recv)
+		if l != nil && l.Sh.Kind == "map" && len(args) > 0 && args[0].Sh != nil && args[0].Sh.Kind == "any" {
+			s := st
+			if sc != nil && sc.inOld {
+				s = sc.old
+			}
+			m := ex.readLoc(s, l)
+			m.T = types.NewMap(types.Typ[types.String], types.NewInterfaceType(nil, nil))
+			key := args[0]
+			if ex.specDepth == 0 && ex.discovery == 0 {
+				ex.obligNamed(st, "safety", "safety:syncmap-string-key("+ex.eng.srcLine(pos)+")", pos, eq(key.kid("tag").S, fmt.Sprint(tagString)), "sync.Map is modelled with string keys only")
+			}
+			k := &Val{Sh: leafShape(types.Typ[types.String], "String"), T: types.Typ[types.String], S: key.kid("s").S}
+			present := "(select " + m.kid("dom").S + " " + k.S + ")"
+			anyT := types.NewInterfaceType(nil, nil)
+			cur := ex.retype(ex.selectVal(m.kid("val"), k.S), anyT)
+			ex.assumption("sync.Map behaves as a sequential map (atomicity of each call; string keys)")
+			switch ref {
+			case "sync.(*Map).Load":
+				ex.modelUsed[ref]++
+				return []*Val{ex.iteVal(present, cur, ex.zeroVal(anyT)), b(present)}, true
+			case "sync.(*Map).Store":
+				ex.writeLoc(st, l, ex.mapStore(m, k, args[1]))
+				return none()
+			case "sync.(*Map).LoadOrStore":
+				nm := ex.mapStore(m, k, args[1])
+				ex.writeLoc(st, l, ex.iteVal(present, m, nm))
+				ex.modelUsed[ref]++
+				return []*Val{ex.iteVal(present, cur, args[1]), b(present)}, true
+			case "sync.(*Map).Delete":
+				ex.writeLoc(st, l, ex.mapDelete(m, k))
+				return none()
+			}
+		}
+	case "math.Float64bits":
+		ex.eng.smt.declFun("uf_f64bits", "(declare-fun uf_f64bits (Real) Int)")
+		ex.eng.smt.declFun("uf_f64from", "(declare-fun uf_f64from (Int) Real)")
+		ex.eng.smt.addFunAx("uf_f64bits", "(forall ((x Real)) (! (and (= (uf_f64from (uf_f64bits x)) x) (<= 0 (uf_f64bits x)) (<= (uf_f64bits x) 18446744073709551615)) :pattern ((uf_f64bits x))))")
+		ex.eng.smt.addFunAx("uf_f64bits", "(= (uf_f64bits 0.0) 0)")
+		ex.assumption("math.Float64bits / Float64frombits: an uninterpreted bijection (frombits(bits(x)) = x, bits(+0.0) = 0); float64 values as reals")
+		return one(ex.intVal("(uf_f64bits "+args[0].S+")", r0()))
+	case "math.Float64frombits":
+		ex.eng.smt.declFun("uf_f64bits", "(declare-fun uf_f64bits (Real) Int)")
+		ex.eng.smt.declFun("uf_f64from", "(declare-fun uf_f64from (Int) Real)")
+		ex.eng.smt.addFunAx("uf_f64bits", "(forall ((x Real)) (! (and (= (uf_f64from (uf_f64bits x)) x) (<= 0 (uf_f64bits x)) (<= (uf_f64bits x) 18446744073709551615)) :pattern ((uf_f64bits x))))")
+		return one(&Val{Sh: ex.eng.sh.shapeOf(r0()), T: r0(), S: "(uf_f64from " + args[0].S + ")"})
 	case "crypto/sha1.Sum":
 		d := args[0]
 		if d.Sh != nil && d.Sh.Kind == "slice" {
